@@ -1,6 +1,7 @@
 import PPLV.Checked.Proofs4
 import Mathlib.Tactic.Linarith
 import Mathlib.Tactic.Push
+import Mathlib.Tactic.Ring
 import Mathlib.Tactic.FieldSimp
 import Mathlib.Algebra.Order.Field.Basic
 /-!
@@ -130,5 +131,232 @@ theorem tdiv_tmod_pos (x : Int) {y : Int} (hy : 0 < y) :
     have h5 : 0 ≤ (-x).tdiv y := by
       rw [Int.tdiv_eq_ediv_of_nonneg (by omega)]; exact Int.ediv_nonneg (by omega) (by omega)
     omega
+
+
+/-- the truncated quotient of two finite values is finite, except `min / -1` -/
+theorem tdiv_finite {t : IntTy} {π : Policy} (w : t.WF π) {x y : Int} (hx : t.finite π x) (hyf : t.finite π y)
+    (hy0 : y ≠ 0) (hy1 : y ≠ -1) : t.finite π (x.tdiv y) ∧ (2 ≤ y ∨ y ≤ -2 →
+      (0 ≤ x → -x ≤ 2 * x.tdiv y ∧ 2 * x.tdiv y ≤ x) ∧ (x < 0 → x ≤ 2 * x.tdiv y ∧ 2 * x.tdiv y ≤ -x)) := by
+  obtain ⟨hmin, hmax⟩ := IntTy.emin_le_emax w
+  obtain ⟨h1, h2⟩ := hx
+  have hle : t.signed = true → -(t.emin π) ≤ t.emax π + 1 := by
+    intro hsg
+    obtain ⟨hp, hr⟩ := w.half_facts
+    unfold IntTy.emin IntTy.emax IntTy.cmin IntTy.cmax b2i
+    generalize t.half = H at *
+    layout_cases t π
+  have hun : t.signed = false → t.emin π = 0 := fun hs => by simp [IntTy.emin, IntTy.cmin, hs]
+  have hge' : t.signed = true → t.emax π ≤ -(t.emin π) := IntTy.neg_emin_ge_emax w
+  rcases (by omega : 0 < y ∨ y < -1) with hy | hy
+  · obtain ⟨e, p, n⟩ := tdiv_tmod_pos x hy
+    generalize x.tdiv y = q at *
+    generalize x.tmod y = m at *
+    rcases (by omega : 0 ≤ x ∨ x < 0) with hx0 | hx0
+    · obtain ⟨m0, m1, q0⟩ := p hx0
+      have : q ≤ y * q := by nlinarith
+      refine ⟨⟨by omega, by omega⟩, fun h2 => ?_⟩
+      have : 2 * q ≤ y * q := by rcases h2 with h | h; nlinarith; omega
+      exact ⟨fun _ => by omega, fun _ => by omega⟩
+    · obtain ⟨m0, m1, q0⟩ := n hx0
+      have : y * q ≤ q := by nlinarith
+      refine ⟨⟨by omega, by omega⟩, fun h2 => ?_⟩
+      have : y * q ≤ 2 * q := by rcases h2 with h | h; nlinarith; omega
+      exact ⟨fun _ => by omega, fun _ => by omega⟩
+  · have hy' : 0 < -y := by omega
+    obtain ⟨e, p, n⟩ := tdiv_tmod_pos x hy'
+    have eq1 : x.tdiv (-y) = -(x.tdiv y) := Int.tdiv_neg x y
+    have eq2 : x.tmod (-y) = x.tmod y := Int.tmod_neg x y
+    rw [eq1, eq2] at e p n
+    generalize x.tdiv y = q at *
+    generalize x.tmod y = m at *
+    have e' : y * q + m = x := by rw [← e]; ring
+    have hsg : t.signed = true := by
+      cases hs : t.signed
+      · have := hun hs; have := hyf.1; omega
+      · rfl
+    have := hle hsg
+    have hge := hge' hsg
+    have := hyf.1
+    rcases (by omega : 0 ≤ x ∨ x < 0) with hx0 | hx0
+    · obtain ⟨m0, m1, q0⟩ := p hx0
+      have : 2 * (-q) ≤ y * q := by nlinarith
+      exact ⟨⟨by omega, by omega⟩, fun _ => ⟨fun _ => by omega, fun _ => by omega⟩⟩
+    · obtain ⟨m0, m1, q0⟩ := n hx0
+      have : y * q ≤ 2 * (-q) := by nlinarith
+      exact ⟨⟨by omega, by omega⟩, fun _ => ⟨fun _ => by omega, fun _ => by omega⟩⟩
+
+theorem okq_divZero {t : IntTy} {π : Policy} (w : t.WF π) (dir : Dir) {to0 : Int} (h0 : t.inRange to0) :
+    OKQ t π dir (assignNan t π to0 V_DIV_ZERO) .nan :=
+  ok_toQ (e := .nan) (ok_assignNan w dir h0 rfl (Or.inr (Or.inr rfl)))
+
+/-- exact result of a division of finite values -/
+def divExactQ (x y : Int) : Ext Rat := if y = 0 then .nan else .fin ((x : Rat) / (y : Rat))
+
+theorem divUnsigned_okq {t : IntTy} {π : Policy} (w : t.WF π) (hs : t.signed = false)
+    (dir : Dir) {to0 x y : Int} (h0 : t.inRange to0) (hx : t.finite π x) (hy : t.finite π y)
+    (hdz : π.checkDivZero = true ∨ y ≠ 0) :
+    OKQ t π dir (divUnsigned t π to0 x y dir) (divExactQ x y) := by
+  have e0 : t.emin π = 0 := by simp [IntTy.emin, IntTy.cmin, hs]
+  have hx0 : 0 ≤ x := by have := hx.1; omega
+  have hy0 : 0 ≤ y := by have := hy.1; omega
+  unfold divUnsigned divExactQ
+  by_cases hz : y = 0
+  · have hc : π.checkDivZero = true := by rcases hdz with h | h; exact h; exact absurd hz h
+    simp only [hz, hc, beq_self_eq_true, Bool.and_self, if_true]
+    exact okq_divZero w dir h0
+  · have hyp : 0 < y := by omega
+    have hb : (y == 0) = false := by simpa using hz
+    simp only [hb, Bool.and_false, Bool.false_eq_true, if_false, hz]
+    obtain ⟨e, p, _⟩ := tdiv_tmod_pos x hyp
+    obtain ⟨m0, m1, q0⟩ := p hx0
+    obtain ⟨hfq, hb2⟩ := tdiv_finite w hx hy (by omega) (by omega)
+    generalize x.tdiv y = q at *
+    generalize x.tmod y = m at *
+    have mulq : q * y = y * q := Int.mul_comm _ _
+    split
+    · rename_i hnr
+      refine okq_normal w hfq rfl rfl rfl ?_ ?_ ?_
+      · by_cases hm : m = 0
+        · exact Or.inr (Or.inl ⟨rfl, (div_eq_int hyp).mpr (by omega)⟩)
+        · exact Or.inr (Or.inr ⟨rfl, (int_lt_div hyp).mpr (by omega)⟩)
+      · intro h; simp [Dir.notRequested, h] at hnr
+      · intro h; simp [Dir.notRequested, h] at hnr
+    · split
+      · rename_i hm
+        have hm : m = 0 := by simpa using hm
+        exact okq_normal w hfq rfl rfl rfl (Or.inr (Or.inl ⟨rfl, (div_eq_int hyp).mpr (by omega)⟩))
+          (fun _ => le_of_eq ((div_eq_int hyp).mpr (by omega)))
+          (fun _ => le_of_eq ((div_eq_int hyp).mpr (by omega)).symm)
+      · rename_i hm
+        have hm : m ≠ 0 := by simpa using hm
+        have hy2 : 2 ≤ y := by omega
+        have hb3 := (hb2 (Or.inl hy2)).1 hx0
+        have hqx : 2 * q ≤ x := hb3.2
+        have hxm := hx.2
+        unfold roundGt
+        split
+        · rename_i hup
+          have hup' : dir = Dir.up := by simpa [Dir.roundUp] using hup
+          have hq2 : 2 * q ≤ y * q := by nlinarith
+          have hne' : q ≠ t.emax π := by intro h; omega
+          have hne : (q == t.emax π) = false := by simpa using hne'
+          simp only [hne, Bool.false_eq_true, if_false]
+          have e2 : (q + 1) * y = y * q + y := by ring
+          refine okq_normal w ⟨by omega, by omega⟩ rfl rfl rfl
+            (Or.inl ⟨rfl, by push_cast; exact_mod_cast (div_lt_int (s := q + 1) hyp).mpr (by omega)⟩) ?_ ?_
+          · intro _; exact le_of_lt (by exact_mod_cast (div_lt_int (s := q + 1) hyp).mpr (by omega))
+          · intro h; rw [hup'] at h; cases h
+        · rename_i hup
+          refine okq_normal w hfq rfl rfl rfl (Or.inr (Or.inr ⟨rfl, (int_lt_div hyp).mpr (by omega)⟩)) ?_ ?_
+          · intro h; simp [Dir.roundUp, h] at hup
+          · intro _; exact le_of_lt ((int_lt_div hyp).mpr (by omega))
+
+/-- **partial** (`div_signed_int`): correct when the divisor is positive, or the quotient is exact,
+or no directed rounding is requested.  What is missing: `y < -1 ∧ x % y ≠ 0` under
+`ROUND_UP`/`ROUND_DOWN`, where the code is wrong. -/
+theorem divSigned_okq_partial {t : IntTy} {π : Policy} (w : t.WF π) (hs : t.signed = true) (hl : t.LargerOK)
+    (hco : π.checkOverflow = true)
+    (dir : Dir) {to0 x y : Int} (h0 : t.inRange to0) (hx : t.finite π x) (hy : t.finite π y)
+    (hdz : π.checkDivZero = true ∨ y ≠ 0)
+    (side : 0 < y ∨ x.tmod y = 0 ∨ dir.notRequested = true) :
+    OKQ t π dir (divSigned t π to0 x y dir) (divExactQ x y) := by
+  unfold divSigned divExactQ
+  by_cases hz : y = 0
+  · have hc : π.checkDivZero = true := by rcases hdz with h | h; exact h; exact absurd hz h
+    simp only [hz, hc, beq_self_eq_true, Bool.and_self, if_true]
+    exact okq_divZero w dir h0
+  · have hb : (y == 0) = false := by simpa using hz
+    simp only [hb, Bool.and_false, Bool.false_eq_true, if_false, hz, hco, Bool.true_and]
+    by_cases hm1 : y = -1
+    · subst hm1
+      simp only [beq_self_eq_true, if_true]
+      have := ok_toQ (tri_ok w h0 (negSigned_tri w hs hl hco dir h0 hx))
+      have e : (Ext.fin (-x)).map (Int.cast : Int → Rat) = Ext.fin ((x : Rat) / ((-1 : Int) : Rat)) := by
+        simp only [Ext.map]; congr 1; push_cast; rw [div_neg, div_one]
+      rw [e] at this
+      exact this
+    · have hb1 : (y == -1) = false := by simpa using hm1
+      simp only [hb1, Bool.false_eq_true, if_false]
+      obtain ⟨hfq, hb2⟩ := tdiv_finite w hx hy hz hm1
+      split
+      · rename_i hnr
+        refine okq_normal w hfq rfl rfl rfl ?_ ?_ ?_
+        · rcases lt_trichotomy ((x : Rat) / (y : Rat)) ((x.tdiv y : Int) : Rat) with h | h | h
+          · exact Or.inl ⟨rfl, h⟩
+          · exact Or.inr (Or.inl ⟨rfl, h⟩)
+          · exact Or.inr (Or.inr ⟨rfl, h⟩)
+        · intro h; simp [Dir.notRequested, h] at hnr
+        · intro h; simp [Dir.notRequested, h] at hnr
+      · rename_i hnr
+        have hnr' : dir.notRequested = false := by simpa using hnr
+        by_cases hm : x.tmod y = 0
+        · -- exact quotient, any sign of the divisor
+          have hxe : x = x.tdiv y * y := by
+            have := Int.mul_tdiv_add_tmod x y; rw [hm] at this; rw [Int.mul_comm]; omega
+          have hq : (x : Rat) / (y : Rat) = ((x.tdiv y : Int) : Rat) := by
+            have hy' : (y : Rat) ≠ 0 := by exact_mod_cast hz
+            rw [div_eq_iff hy']; exact_mod_cast hxe
+          simp only [hm, Int.lt_irrefl, if_false]
+          exact okq_normal w hfq rfl rfl rfl (Or.inr (Or.inl ⟨rfl, hq⟩)) (fun _ => le_of_eq hq) (fun _ => le_of_eq hq.symm)
+        · have hyp : 0 < y := by
+            rcases side with h | h | h
+            · exact h
+            · exact absurd h hm
+            · rw [hnr'] at h; cases h
+          obtain ⟨e, p, n⟩ := tdiv_tmod_pos x hyp
+          have hy2 : 2 ≤ y := by
+            rcases (by omega : 0 ≤ x ∨ x < 0) with hx0 | hx0
+            · have := p hx0; omega
+            · have := n hx0; omega
+          have hb3 := hb2 (Or.inl hy2)
+          obtain ⟨hmin, hmax⟩ := IntTy.emin_le_emax w
+          have hge := IntTy.neg_emin_ge_emax w hs
+          have hxb := hx; have hyb := hy
+          obtain ⟨hx1, hx2⟩ := hxb
+          obtain ⟨hy1, hy2'⟩ := hyb
+          generalize x.tdiv y = q at *
+          generalize x.tmod y = m at *
+          have mulq : q * y = y * q := Int.mul_comm _ _
+          split
+          · rename_i hneg
+            have hx0 : x < 0 := by
+              rcases (by omega : 0 ≤ x ∨ x < 0) with hx0 | hx0
+              · have := p hx0; omega
+              · exact hx0
+            obtain ⟨m0, m1, q0⟩ := n hx0
+            unfold roundLtNoOverflow
+            split
+            · rename_i hdn
+              have hdn' : dir = Dir.down := by simpa [Dir.roundDown] using hdn
+              have e2 : (q - 1) * y = y * q - y := by ring
+              refine okq_normal w ⟨by omega, by omega⟩ rfl rfl rfl
+                (Or.inr (Or.inr ⟨rfl, by exact_mod_cast (int_lt_div (s := q - 1) hyp).mpr (by omega)⟩)) ?_ ?_
+              · intro h; rw [hdn'] at h; cases h
+              · intro _; exact le_of_lt (by exact_mod_cast (int_lt_div (s := q - 1) hyp).mpr (by omega))
+            · rename_i hdn
+              refine okq_normal w hfq rfl rfl rfl (Or.inl ⟨rfl, (div_lt_int hyp).mpr (by omega)⟩) ?_ ?_
+              · intro _; exact le_of_lt ((div_lt_int hyp).mpr (by omega))
+              · intro h; simp [Dir.roundDown, h] at hdn
+          · rename_i hneg
+            have hpos : 0 < m := by omega
+            simp only [hpos, if_true]
+            have hx0 : 0 ≤ x := by
+              rcases (by omega : 0 ≤ x ∨ x < 0) with hx0 | hx0
+              · exact hx0
+              · have := n hx0; omega
+            obtain ⟨m0, m1, q0⟩ := p hx0
+            unfold roundGtNoOverflow
+            split
+            · rename_i hup
+              have hup' : dir = Dir.up := by simpa [Dir.roundUp] using hup
+              have e2 : (q + 1) * y = y * q + y := by ring
+              refine okq_normal w ⟨by omega, by omega⟩ rfl rfl rfl
+                (Or.inl ⟨rfl, by exact_mod_cast (div_lt_int (s := q + 1) hyp).mpr (by omega)⟩) ?_ ?_
+              · intro _; exact le_of_lt (by exact_mod_cast (div_lt_int (s := q + 1) hyp).mpr (by omega))
+              · intro h; rw [hup'] at h; cases h
+            · rename_i hup
+              refine okq_normal w hfq rfl rfl rfl (Or.inr (Or.inr ⟨rfl, (int_lt_div hyp).mpr (by omega)⟩)) ?_ ?_
+              · intro h; simp [Dir.roundUp, h] at hup
+              · intro _; exact le_of_lt ((int_lt_div hyp).mpr (by omega))
 
 end PPLV.Checked
